@@ -182,6 +182,7 @@ func checkC18(c *Ctx, r *Report) {
 	for _, sp := range aacCodecs {
 		reportCodec(r, c, analyseCodec(c, sp))
 	}
+	ruleAscArms(c, r)
 	if f := c.ssaFunc(r, "DEP", "mp4", "TrakBox.SetAACDescriptor"); f != nil {
 		esds := callsIn(f, "mp4.CreateEsdsBox", false)
 		if len(esds) != 1 {
